@@ -99,6 +99,37 @@ def pick_culprits(culprits, feat, limit=4):
     return out
 
 
+def diff_tokens(tv_diff, feat, limit=12):
+    """Input tokens taken from WHAT differs between the emitted code and the model: the string literals and the range / class ends that
+    occur on one side only, and the neighbours of the range ends (hex strings for C02_EXTRA_TOKENS)."""
+    out = []
+    def add(s):
+        try:
+            h = s.encode("utf-8").hex()
+        except UnicodeEncodeError:
+            return
+        if s and h not in out:
+            out.append(h)
+    for m in sorted(tv_diff, key=lambda m: len(m["impl"]) + len(m["expected"])):
+        if field(m["case"], "x") != ("1" if feat else "0"):
+            continue
+        a, b = m["impl"], m["expected"]
+        lits = lambda t: set(re.findall(r"\((?:str|ins|pushlit) ([0-9a-f]+)\)", t)) | set(x for g in re.findall(r"\(until((?: [0-9a-f]+)+)\)", t) for x in g.split())
+        for h in sorted(lits(a) ^ lits(b), key=len):
+            try:
+                add(bytes.fromhex(h).decode("utf-8"))
+            except (ValueError, UnicodeDecodeError):
+                pass
+        nums = lambda t: set(int(x) for g in re.findall(r"\((?:range|cls)((?: \d+)+)\)", t) for x in g.split())
+        for n in sorted(nums(a) ^ nums(b)):
+            for cp in (n, n - 1, n + 1):
+                if 0 <= cp < 0x110000 and not 0xD800 <= cp < 0xE000:
+                    add(chr(cp))
+        if len(out) >= limit:
+            break
+    return out[:limit]
+
+
 def run_pipes(cmds, timeout=3000):
     outs = run_pipeline(cmds, timeout=timeout)
     mism, known, stats = [], [], {}
@@ -243,10 +274,12 @@ def run(tier, seed, replay=None):
             ng = int(info.strip() or "0")
             chunks = max(1, min(NPROC, ng))
             step = (ng + chunks - 1) // chunks if ng else 1
-            m2, k2, s2 = run_pipes(["%s 4 %d %d | %s" % (exe, a, min(ng, a + step), runner) for a in range(0, max(ng, 1), step)])
+            xt = diff_tokens(tv_diff, feat)
+            m2, k2, s2 = run_pipes(["C02_EXTRA_TOKENS=%s %s 4 %d %d | %s" % (",".join(xt), exe, a, min(ng, a + step), runner) for a in range(0, max(ng, 1), step)])
             log("C02: search around the pinpointed constructs%s [%s]: %d grammars, %d (rule, input) evaluations, %d direct differences, %d disagreements inside H (%.0fs)" % (
                 " (grammar-extras)" if feat else "", what, ng, s2.get("evaluations", 0), s2.get("direct_differences", 0), s2.get("spec_in_H", 0), time.time() - t0))
             searches.append({"stage": "around", "extras": bool(feat), "constructs": what, "grammars": ng, "evaluations": s2.get("evaluations", 0),
+                             "input_tokens_from_the_difference_hex": xt,
                              "direct_differences": s2.get("direct_differences", 0), "disagreements_in_H": s2.get("spec_in_H", 0)})
             mism += [m for m in m2 if m["kind"] == "spec"]
             known += k2
@@ -274,7 +307,7 @@ def run(tier, seed, replay=None):
             if brc != 0:
                 log("C02: targeted search: the differing grammars do not compile (%s)" % bout[-300:].replace("\n", " "))
                 continue
-            m2, k2, s2 = run_pipes(["%s 4 | %s" % (exe, runner)])
+            m2, k2, s2 = run_pipes(["C02_EXTRA_TOKENS=%s %s 4 | %s" % (",".join(diff_tokens(tv_diff, feat)), exe, runner)])
             log("C02: targeted search over %d structurally differing grammars%s: %d cases, %d disagreements inside H" % (
                 len(texts), " (grammar-extras)" if feat else "", s2.get("cases", 0), s2.get("spec_in_H", 0)))
             searches.append({"stage": "differing grammars", "extras": bool(feat), "grammars": len(texts), "evaluations": s2.get("evaluations", 0),
@@ -320,8 +353,11 @@ def run(tier, seed, replay=None):
         worst = min(spec_m, key=lambda m: (len(trimmed(m)), len(field(m["case"], "in"))))
         c = worst["case"]
         gtrim = trimmed(worst)
-        res.violation("the derive-generated parser and pest_vm disagree on a grammar inside class H: grammar `%s`, rule %s, input (hex) %s: generated `%s` vs VM `%s` "
-                      "(%d disagreeing cases in this run)" % (gtrim[:400], field(c, "r"), field(c, "in"), worst["impl"][:200], worst["expected"][:200],
+        where = ("inside class H" if field(c, "H") == "in-H" else
+                 "that is outside class H only for its `#t = e?` / `#t = e*` (known class C02-node-tag: which node gets the label), in more than the labels - "
+                 "the results differ with every label erased")
+        res.violation("the derive-generated parser and pest_vm disagree on a grammar %s: grammar `%s`, rule %s, input (hex) %s: generated `%s` vs VM `%s` "
+                      "(%d disagreeing cases in this run)" % (where, gtrim[:400], field(c, "r"), field(c, "in"), worst["impl"][:200], worst["expected"][:200],
                                                             stats.get("spec_in_H", len(spec_m))),
                       {"theorem_or_correspondence": "C02 oracle: generated parser vs pest_vm (real code, compiled batch)", "case": c,
                        "grammar": gtrim.replace("\\n", "\n"), "rule": field(c, "r"), "input": field(c, "in"),
